@@ -2,6 +2,12 @@
  *      [proto ":"] ["//" if host] [user [":" passwd] "@"] [host [":" port]] [path] ["?" query]
  * from the components that are present (a port without a host gets the host "localhost").
  *
+ * Three units over the same harness (one SAT instance with all of them did not finish in 200 s):
+ *   unparse.frame   str preconditions, memory safety, leak check, frame, host rule, class
+ *   unparse.length  length = sum of parts, capacity above it
+ *   unparse.text    byte vg_k of the text = byte of the canonical concatenation
+ * (the model-internal assertions - str preconditions, cut lemmas - are obligations of all three.)
+ *
  * Tier P: the function is loop-free, nothing is unwound, every length is symbolic (< VCAP/16 per part).
  * PLAIN HARNESS (no DFCC enforce/replace): 16 replaced str calls on one path made the DFCC instance
  * 8-14 M SAT variables (> 10 GB, > 600 s; see report).  Instead the str calls are represented by the
@@ -18,13 +24,29 @@
  *   - the object keeps its class (C05 type());  nothing is freed twice / used after free / leaked.
  */
 /*@unit
-name: unparse
-define: NET_CSTR_LITERALS, VERIF_NO_ASSUMED_STR_CONTRACTS
+name: unparse.frame
+define: U_FRAME, NET_CSTR_LITERALS, VERIF_NO_ASSUMED_STR_CONTRACTS
 src: url.c
-backend: z3
+backend: cadical
 timeout: 200
 flags: --memory-leak-check
-funcs: spif_url_unparse, spif_str_done, spif_str_init_from_ptr, spif_str_append, spif_str_append_char, spif_str_append_from_ptr, spif_str_new_from_ptr
+funcs: spif_url_unparse, spif_obj_set_class, spif_str_done, spif_str_init_from_ptr, spif_str_append, spif_str_append_char, spif_str_append_from_ptr, spif_str_new_from_ptr
+*/
+/*@unit
+name: unparse.length
+define: U_LENGTH, NET_CSTR_LITERALS, VERIF_NO_ASSUMED_STR_CONTRACTS
+src: url.c
+backend: cadical
+timeout: 200
+funcs: spif_url_unparse
+*/
+/*@unit
+name: unparse.text
+define: U_TEXT, NET_CSTR_LITERALS, VERIF_NO_ASSUMED_STR_CONTRACTS
+src: url.c
+backend: cadical
+timeout: 200
+funcs: spif_url_unparse
 */
 #include "vprelude.h"
 #include "env_net.h"
@@ -35,8 +57,18 @@ spif_str_t vg_view_of;      /* the str whose text is observed (the URL's own tex
 spif_char_t vg_view;        /* byte vg_k of that text, meaningful while vg_k < len */
 int vg_cls_writes;          /* number of times a str initialiser re-stamped the observed object's class */
 
+/* cut: a fact the model's own arithmetic establishes is asserted and then assumed, so that the
+ * solver need not re-derive it through the whole chain of additions (sound: the assert is checked) */
+#define M_CUT(c, txt) do { __CPROVER_assert((c), txt); __CPROVER_assume(c); } while (0)
 #define M_STATE_OK(p) ((p) != NULL && (p)->s != NULL && (p)->len >= 0 && (p)->len < (p)->size && (p)->size <= VCAP)
 
+/* obj.c:386 (trivial setter, written out) */
+spif_bool_t spif_obj_set_class(spif_obj_t self, spif_class_t cls)
+{
+    __CPROVER_assert(self != NULL, "requires of spif_obj_set_class");
+    self->cls = cls;
+    return TRUE;
+}
 spif_bool_t spif_str_done(spif_str_t self)
 {
     __CPROVER_assert(self != NULL && (self->size == 0 || self->s != NULL), "requires of spif_str_done");
@@ -82,6 +114,7 @@ spif_bool_t spif_str_append(spif_str_t self, spif_str_t other)
         self->len += other->len;
         if (vg_k >= (size_t) olen && vg_k < (size_t) self->len) vg_view = other->s[vg_k - (size_t) olen];
     }
+    M_CUT(self->len < self->size, "ensures of spif_str_append: terminator fits");
     return TRUE;
 }
 spif_bool_t spif_str_append_char(spif_str_t self, spif_char_t c)
@@ -95,6 +128,7 @@ spif_bool_t spif_str_append_char(spif_str_t self, spif_char_t c)
         self->s = malloc(self->size);
     }
     if (vg_k == (size_t) self->len - 1) vg_view = c;
+    M_CUT(self->len < self->size, "ensures of spif_str_append_char: terminator fits");
     return TRUE;
 }
 spif_bool_t spif_str_append_from_ptr(spif_str_t self, spif_charptr_t other)
@@ -111,6 +145,7 @@ spif_bool_t spif_str_append_from_ptr(spif_str_t self, spif_charptr_t other)
         self->len += n;
         if (vg_k >= (size_t) olen && vg_k < (size_t) self->len) vg_view = other[vg_k - (size_t) olen];
     }
+    M_CUT(self->len < self->size, "ensures of spif_str_append_from_ptr: terminator fits");
     return TRUE;
 }
 
@@ -189,6 +224,7 @@ void harness(void)
 
     spif_bool_t r = spif_url_unparse(u);
 
+#ifdef U_FRAME
     __CPROVER_assert(r == TRUE, "unparse returns TRUE");
     /* frame: components not re-seated, their lengths and (probed) bytes unchanged */
     __CPROVER_assert(u->proto == before.proto && u->user == before.user && u->passwd == before.passwd &&
@@ -206,14 +242,21 @@ void harness(void)
     } else {
         __CPROVER_assert(u->host == before.host && LEN0(u->host) == lens[3], "host otherwise unchanged");
     }
+#endif
+#ifdef U_LENGTH
     /* text: length = sum of present parts and their separators; capacity above it; buffer present */
     __CPROVER_assert((size_t) NSTR(u)->len == O6(u), "text length is the sum of the present components and their separators");
     __CPROVER_assert(NSTR(u)->len < NSTR(u)->size && NSTR(u)->s != NULL, "text has room for its terminator");
+#endif
+#ifdef U_TEXT
     /* text: byte vg_k (arbitrary) is the byte of the canonical concatenation */
     if (vg_k < O6(u))
         __CPROVER_assert(vg_view == expect_at(u, vg_k), "text byte vg_k is the byte of the canonical concatenation");
+#endif
+#ifdef U_FRAME
     /* class: a URL stays a URL (C05 type()) */
     __CPROVER_assert(NSTR(u)->parent.cls == cls0, "unparse leaves the object's class alone");
+#endif
     VERIF_CANARY();
     /* ownership: deleting what the caller owns leaves nothing behind (--memory-leak-check) */
     free(NSTR(u)->s);
